@@ -433,8 +433,65 @@ def check_fold_unfold(rep, prog, m):
                rel, fn.lineno, what='cell classes defined by the derived-allele total of each entry')
     tp = prog.func(SM, 'Spectrum._total_per_entry')
     cp = prog.func(SM, 'Spectrum._counts_per_entry')
-    okt = 'numpy.sum(self._counts_per_entry(), axis=-1)' in ast.unparse(tp) and 'numpy.indices(self.shape)' in ast.unparse(cp) and 'ind.transpose(list(range(1, self.Npop + 1)) + [0])' in ast.unparse(cp)
-    rep.ob('R-IDX', '_total_per_entry', okt, 'sum over populations of the index of each entry', rel, tp.lineno, what='total = i_1 + ... + i_P')
+    # the two index primitives by the value of an element (abstract execution for 1-4 populations + index semantics): element
+    # (i_1..i_P, p) of _counts_per_entry() is i_p, element (i_1..i_P) of _total_per_entry() is i_1 + ... + i_P
+    from sa import tis
+    from sa import miniexec as mx
+    from sa import alpha as _alpha
+    known_ = _alpha.load_table().get('__params__', {}).get(rel)
+    known_ = set(known_) if known_ is not None else None
+    badt = []
+
+    def is_indices(v):
+        c_ = mx.call_of(v, 'indices')
+        return c_ is not None and len(c_[0]) == 1 and mx.show(c_[0][0]) == 'self.shape'
+
+    def value_at(v, idx, P):
+        """the element of v at idx as a list of index symbols that are summed"""
+        rec = mx.method_call(v, 'sum')
+        c_ = mx.call_of(v, 'sum') if rec is None or mx.show(rec) in ('numpy', 'np') else None
+        if (rec is not None and mx.show(rec) not in ('numpy', 'np')) or c_ is not None:
+            X = rec if c_ is None else c_[0][0]
+            kw_ = v.struct[3]
+            ax = kw_.get('axis', (v.struct[2][0] if c_ is None and v.struct[2] else (c_[0][1] if c_ is not None and len(c_[0]) > 1 else None)))
+            if not isinstance(ax, int):
+                raise tis.Unfollowed('sum over axis %s' % mx.show(ax))
+            ax %= len(idx) + 1
+            out = []
+            for p_ in range(P):
+                out += value_at(X, idx[:ax] + [p_] + idx[ax:], P)
+            return out
+        root, ridx = tis.at(v, idx, is_indices)
+        if not isinstance(ridx[0], int) or len(ridx) != P + 1:
+            raise tis.Unfollowed('element of the index grid at %s' % [mx.show(x) for x in ridx])
+        return [mx.show(ridx[1 + ridx[0]])]
+    try:
+        for P in (1, 2, 3, 4):
+            selfv = mx.Sym('self', truth=True, attrs={'Npop': P, 'ndim': P, 'shape': mx.Sym('self.shape', length=P)})
+            it_ = mx.Interp(prog, m, known_functions=known_, enter=('Spectrum._counts_per_entry',))
+            idx = [mx.Sym('i%d' % k) for k in range(P)]
+            rc = [p_ for p_ in it_.run(cp, {'self': selfv}) if p_[0][0] == 'return']
+            if len(rc) != 1:
+                raise tis.Unfollowed('%d returning paths of _counts_per_entry' % len(rc))
+            counts = rc[0][0][1]
+            for p_ in range(P):
+                if value_at(counts, idx + [p_], P) != ['i%d' % p_]:
+                    badt.append('%d populations: entry (.., %d) of _counts_per_entry() is %s' % (P, p_, value_at(counts, idx + [p_], P)))
+
+            def hook(nm, args, kwargs, counts=counts):
+                if nm == 'self._counts_per_entry' and not args:
+                    return counts
+                return NotImplemented
+            it_ = mx.Interp(prog, m, known_functions=known_, call_hook=hook)
+            rt = [p_ for p_ in it_.run(tp, {'self': selfv}) if p_[0][0] == 'return']
+            if len(rt) != 1:
+                raise tis.Unfollowed('%d returning paths of _total_per_entry' % len(rt))
+            got = sorted(value_at(rt[0][0][1], idx, P))
+            if got != ['i%d' % k for k in range(P)]:
+                badt.append('%d populations: an entry of _total_per_entry() is the sum of %s' % (P, got))
+    except (tis.Unfollowed, mx.Undecidable, IndexError) as e:
+        badt.append('index primitives are not recognised: %s' % e)
+    rep.ob('R-IDX', '_total_per_entry', not badt, '; '.join(badt[:2]) if badt else 'sum over populations of the index of each entry (1-4 populations)', rel, tp.lineno, what='total = i_1 + ... + i_P')
     ra = prog.func(NUM, 'reverse_array')
     # for 1..4-dimensional arrays the result is arr[::-1, ::-1, ...] (abstract execution: the index tuple is compared as a value)
     from sa import miniexec as _mx
